@@ -76,6 +76,8 @@ const (
 	FaultGarbageCert = "garbage-certificate"
 	FaultZeroKey     = "zero-key"
 	FaultEmptyID     = "ok-with-empty-id" // CreateAuthRequest only
+	FaultCtxDeadline = "error-context-deadline"
+	FaultCtxCanceled = "error-context-canceled"
 )
 
 var ErrInjected = errors.New("injected storage fault")
@@ -242,14 +244,29 @@ func (s *Store) injected() error {
 	return ErrInjected
 }
 
+// faultErr maps an error-class fault kind to the error storage returns.
+func (s *Store) faultErr(kind string) error {
+	switch kind {
+	case FaultCtxDeadline:
+		return fmt.Errorf("storage: query failed: %w", context.DeadlineExceeded)
+	case FaultCtxCanceled:
+		return fmt.Errorf("storage: query failed: %w", context.Canceled)
+	}
+	return s.injected()
+}
+
+func isErrFault(kind string) bool {
+	return kind == FaultError || kind == FaultCtxDeadline || kind == FaultCtxCanceled
+}
+
 // ---- provider.Storage --------------------------------------------------------------------------
 
 func (s *Store) keyAnswer(idx int, fault string, base *key.CertificateAndKey) (*key.CertificateAndKey, error) {
 	switch fault {
 	case "":
 		return base, nil
-	case FaultError:
-		err := s.injected()
+	case FaultError, FaultCtxDeadline, FaultCtxCanceled:
+		err := s.faultErr(fault)
 		s.result(idx, "", err)
 		return nil, err
 	case FaultNilRecord:
@@ -286,7 +303,7 @@ func (s *Store) GetResponseSigningKey(context.Context) (*key.CertificateAndKey, 
 func (s *Store) GetEntityByID(_ context.Context, entityID string) (*serviceprovider.ServiceProvider, error) {
 	idx, f := s.enter("GetEntityByID", entityID)
 	if f != "" {
-		err := s.injected()
+		err := s.faultErr(f)
 		s.result(idx, "", err)
 		return nil, err
 	}
@@ -305,7 +322,7 @@ func (s *Store) GetEntityByID(_ context.Context, entityID string) (*serviceprovi
 func (s *Store) GetEntityIDByAppID(_ context.Context, appID string) (string, error) {
 	idx, f := s.enter("GetEntityIDByAppID", appID)
 	if f != "" {
-		err := s.injected()
+		err := s.faultErr(f)
 		s.result(idx, "", err)
 		return "", err
 	}
@@ -330,8 +347,8 @@ func (s *Store) CreateAuthRequest(_ context.Context, req *samlp.AuthnRequestType
 	s.mu.Lock()
 	s.calls[idx].Request = req
 	s.mu.Unlock()
-	if f == FaultError {
-		err := s.injected()
+	if isErrFault(f) {
+		err := s.faultErr(f)
 		s.result(idx, "", err)
 		return nil, err
 	}
@@ -357,7 +374,7 @@ func (s *Store) CreateAuthRequest(_ context.Context, req *samlp.AuthnRequestType
 func (s *Store) AuthRequestByID(_ context.Context, id string) (models.AuthRequestInt, error) {
 	idx, f := s.enter("AuthRequestByID", id)
 	if f != "" {
-		err := s.injected()
+		err := s.faultErr(f)
 		s.result(idx, "", err)
 		return nil, err
 	}
@@ -388,7 +405,7 @@ func (s *Store) fill(u *User, set models.AttributeSetter) {
 func (s *Store) SetUserinfoWithUserID(_ context.Context, appID string, set models.AttributeSetter, userID string, attrs []int) error {
 	idx, f := s.enter("SetUserinfoWithUserID", appID, userID)
 	if f != "" {
-		err := s.injected()
+		err := s.faultErr(f)
 		s.result(idx, "", err)
 		return err
 	}
@@ -408,7 +425,7 @@ func (s *Store) SetUserinfoWithUserID(_ context.Context, appID string, set model
 func (s *Store) SetUserinfoWithLoginName(_ context.Context, set models.AttributeSetter, loginName string, attrs []int) error {
 	idx, f := s.enter("SetUserinfoWithLoginName", loginName)
 	if f != "" {
-		err := s.injected()
+		err := s.faultErr(f)
 		s.result(idx, "", err)
 		return err
 	}
@@ -428,7 +445,7 @@ func (s *Store) SetUserinfoWithLoginName(_ context.Context, set models.Attribute
 func (s *Store) Health(context.Context) error {
 	idx, f := s.enter("Health")
 	if f != "" {
-		err := s.injected()
+		err := s.faultErr(f)
 		s.result(idx, "", err)
 		return err
 	}
